@@ -16,6 +16,10 @@ pub enum ErrKind {
     BrokenPipe,
     ConnectionReset,
     InvalidInput,
+    InvalidData,
+    Unsupported,
+    NotConnected,
+    OutOfMemory,
 }
 
 impl ErrKind {
@@ -31,9 +35,13 @@ impl ErrKind {
             ErrKind::BrokenPipe => K::BrokenPipe,
             ErrKind::ConnectionReset => K::ConnectionReset,
             ErrKind::InvalidInput => K::InvalidInput,
+            ErrKind::InvalidData => K::InvalidData,
+            ErrKind::Unsupported => K::Unsupported,
+            ErrKind::NotConnected => K::NotConnected,
+            ErrKind::OutOfMemory => K::OutOfMemory,
         }
     }
-    pub const READ_KINDS: [ErrKind; 7] = [
+    pub const READ_KINDS: [ErrKind; 12] = [
         ErrKind::Other,
         ErrKind::UnexpectedEof,
         ErrKind::TimedOut,
@@ -41,6 +49,11 @@ impl ErrKind {
         ErrKind::PermissionDenied,
         ErrKind::BrokenPipe,
         ErrKind::ConnectionReset,
+        ErrKind::InvalidData,
+        ErrKind::InvalidInput,
+        ErrKind::Unsupported,
+        ErrKind::NotConnected,
+        ErrKind::OutOfMemory,
     ];
     pub const OPEN_KINDS: [ErrKind; 4] = [
         ErrKind::NotFound,
